@@ -191,6 +191,8 @@ def cache_coherence(I, values, Fp, pc, assume, name, out):
             seen.add(id(v))
             for f, (v0, filler) in getattr(v, "cf", {}).items():
                 fin = v.fields.get(f, _MISSING)
+                if type(fin).__name__ == "PendingCache":
+                    continue        # never looked at since a callee established coherence (or since the pre-state)
                 if fin is v0 or (fin is not _MISSING and not isinstance(fin, (Arr, Poly, Obj, tuple, list)) and fin == v0):
                     continue
                 cname = "%s.cache.%s.%s" % (name, v.cls.name, f)
